@@ -245,13 +245,67 @@ def gen_iso(R, n):
     return cases
 
 
+# flat arcs: a short piece of a large circle (a gently curved edge), at the default and at coarser output precisions
+FLAT_CORPUS = [
+    {"shape": "arc", "cw": True, "rel": False, "start": [0.0, 0.0, 0.0], "res": 0.02, "units": "mm", "dp": 5, "target": [1.2, 0.0, None],
+     "center": [0.6, -math.sqrt(80000.0 ** 2 - 0.36)]},
+    {"shape": "arc_radius", "cw": False, "rel": True, "start": [4.0, -2.5, 1.0], "res": 0.04, "units": "mm", "dp": 3, "target": [4.0, -1.7, 1.0], "radius": 250.0},
+    {"shape": "arc_radius", "cw": True, "rel": False, "start": [-3.0, 6.0, 0.0], "res": 0.1, "units": "in", "dp": 2, "target": [-1.0, 6.0, 0.5], "radius": 120.0},
+]
+
+
+def gen_flat(R, n):
+    """Flat arcs (`arc` and `arc_radius`): a gently curved edge, i.e. a short piece of a large circle.  radius = 10^U(2,5), the
+    chord chosen so that the sagitta (deviation of the arc from its chord) is 10^U(-8,-3) - from far below to around the last
+    written decimal - while the path is 5..300 resolution units long; decimal_places in {2,3,4,5} (only settings at which the
+    resolution is still at least five units of the last written decimal, so that the measured lengths mean something).
+    However flat, the arc is a constant-speed shape: every clause on segment lengths and on their number applies."""
+    rng = R.rng
+    cases = []
+    while len(cases) < n:
+        c = tc._common(rng)
+        shape = "arc" if len(cases) % 2 == 0 else "arc_radius"
+        rad = 10 ** rng.uniform(2, 5)
+        sag = 10 ** rng.uniform(-8, -3)
+        d = 2 * math.sqrt(sag * (2 * rad - sag))          # chord of the arc of that radius and sagitta
+        sweep = 2 * math.asin(d / (2 * rad))
+        if sweep < 4e-6:
+            continue
+        path = rad * sweep
+        dz = 0.0 if rng.random() < 0.6 else rng.choice([-1, 1]) * rng.uniform(0.05, 0.6) * path
+        L = math.hypot(path, dz)
+        k = 10 ** rng.uniform(math.log10(5), math.log10(300))   # path length / resolution
+        res = L / k
+        dps = [p for p in (2, 3, 4, 5) if res >= 5 * 10.0 ** (-p)]
+        if not dps:
+            continue
+        c["dp"] = dps[0] if rng.random() < 0.4 else rng.choice(dps)   # the coarsest admissible output precision favoured
+        s = c["start"]
+        alpha = rng.uniform(0, TWO_PI)  # direction start -> centre
+        cen = (rad * math.cos(alpha), rad * math.sin(alpha))
+        cx, cy = s[0] + cen[0], s[1] + cen[1]
+        rr = math.hypot(cen[0], cen[1])
+        a0 = math.atan2(s[1] - cy, s[0] - cx)
+        a1 = a0 + (-sweep if c["cw"] else sweep)
+        tgt = [cx + rr * math.cos(a1), cy + rr * math.sin(a1), s[2] + dz]
+        c.update(shape=shape, res=res, est_samples=10 * k, flat={"sagitta": sag, "ratio": k})
+        c["target"] = tgt if (dz != 0.0 or rng.random() < 0.5) else [tgt[0], tgt[1], None]
+        if shape == "arc":
+            c["center"] = list(cen)
+        else:
+            c["radius"] = rr
+        cases.append(c)
+    return cases
+
+
 def run(R: core.Run):
     R.rule = (
         "tracer requests (arc, arc_radius, circle, helix incl. constant radius, thread, spiral, spline, user parametric) each traced "
         "at res and res/2; res = 10^U(-3,1); path/res = 10^U(0.5, 2.0), every 12th up to 10^2.7 (thorough: every 16th up to 10^4); {mm, in} with and without a unit "
         "switch after set_resolution; both directions and distance modes; plus requests of every shape traced while an isometry is active on "
         "the builder's transformer (1-3 of mirror / reflect / rotate / sign-flipping scale, optional pivot and translation; about half "
-        "orientation reversing), path/res = 10^U(0.5, 1.8); non-trivial = accepted and >= 4 segments; distinct by hash"
+        "orientation reversing), path/res = 10^U(0.5, 1.8); plus flat arcs (arc, arc_radius): radius 10^U(2,5), sagitta 10^U(-8,-3), path/res = "
+        "5..300 (log-uniform), decimal_places in {2,3,4,5} with resolution >= 5*10^-dp; non-trivial = accepted and >= 4 segments; distinct by hash"
     )
     R.assumptions = [
         "segment lengths are measured on vertices re-read from the emitted G-code (rounded to decimal_places: tolerance 2*10^-dp)",
@@ -276,9 +330,15 @@ def run(R: core.Run):
     cases = gen_iso(R, R.n(48, 400))
     for k in range(0, len(cases), 150):
         run_batch(R, cases[k : k + 150], "random-isometry")
+    run_batch(R, [dict(c) for c in FLAT_CORPUS], "corpus-flat-arc")
+    cases = gen_flat(R, R.n(36, 300))
+    for c in cases:
+        R.count("flat-arc:dp=%d" % c["dp"], "flat-arc:sagitta/10^-dp:1e%d" % math.floor(math.log10(c["flat"]["sagitta"] * 10 ** c["dp"])))
+    for k in range(0, len(cases), 150):
+        run_batch(R, cases[k : k + 150], "random-flat-arc")
     if R.broken:
         R.search_batches += 1
-        run_batch(R, gen(R, R.n(300, 1500), 2.0, 5000) + gen_iso(R, R.n(40, 200)), "search", correspond=False)
+        run_batch(R, gen(R, R.n(300, 1500), 2.0, 5000) + gen_iso(R, R.n(40, 200)) + gen_flat(R, R.n(40, 200)), "search", correspond=False)
     return {}, {}
 
 
